@@ -3,7 +3,9 @@ package main
 import (
 	"bufio"
 	"bytes"
+	"context"
 	"fmt"
+	vuego "github.com/titpetric/vuego"
 	stdhtml "html"
 	"net/url"
 	"sort"
@@ -348,6 +350,17 @@ func runC20(r *Run) {
 		n = 40000
 	}
 	for i := 0; i < n; i++ {
+		if i == 0 {
+			// (before the first document: a path the default templates use must not already sit in the memo) the process has resolved more distinct dotted variable paths than any bounded memo of parsed
+			// paths holds (the engine keeps 256): the default templates' own paths (cell.align, cell.content, ...) still resolve
+			var sb strings.Builder
+			for k := 0; k < 400; k++ {
+				fmt.Fprintf(&sb, "{{ page.f%d }}{{ site.g%d.h }}", k, k)
+			}
+			var sink bytes.Buffer
+			_ = vuego.New().Fill(map[string]any{"page": map[string]any{}, "site": map[string]any{}}).RenderString(context.Background(), &sink, "<p>"+sb.String()+"</p>")
+			r.Count("history:after-400-distinct-variable-paths")
+		}
 		src := c20Blocks(rr, 2)
 		if i%7 == 3 { // a document that begins with blank lines (an editor's leading line break, CRLF files)
 			src = Pick(rr, []string{"\n", "\n\n", "\r\n", "\n \n", "\r\n\r\n"}) + src
